@@ -70,6 +70,9 @@ def _join_meet_duality(
     if len(args) < 2:
         raise ValueError(f"Expected at least 2 arguments, got {len(args)}.")
 
+    # tensor diagrams identify nodes by object identity: an object that is passed more than once needs its own node
+    args = tuple(o.copy() if any(o is x for x in args[:i]) else o for i, o in enumerate(args))
+
     n = args[0].dim + 1
 
     # all arguments are 1-tensors, i.e. points or hypersurfaces (=lines in 2D)
